@@ -838,3 +838,17 @@ package geom
 //@   ensures fresh(res) && Binv(res) && Brange(res) && okLayout(res.layout)
 //@   loop 1:
 //@     invariant fresh(b) && Binv(b) && Brange(b) && okLayout(b.layout) && fresh(b.min) && fresh(b.max) && noAlias(b) && allGeomsOK()
+
+// C08: extending with geometries of different layouts is independent of the order of extension
+// (layout and every semantic dimension X, Y, Z, M agree).
+//@ func verifExtendOrder
+//@   floats real
+//@   requires b1 != nil && b2 != nil && b1 != b2 && Binv(b1) && Brange(b1) && okLayout(b1.layout) && Binv(b2) && Brange(b2) && okLayout(b2.layout)
+//@   requires allGeomsOK() && noAlias(b1) && noAlias(b2) && flatValid(g1) && flatValid(g2)
+//@   requires base(b1.min) != base(b2.min) && base(b1.min) != base(b2.max) && base(b1.max) != base(b2.min) && base(b1.max) != base(b2.max)
+//@   requires b1.layout == b2.layout && loD(b1, 0) == loD(b2, 0) && loD(b1, 1) == loD(b2, 1) && loD(b1, 2) == loD(b2, 2) && loD(b1, 3) == loD(b2, 3)
+//@   requires hiD(b1, 0) == hiD(b2, 0) && hiD(b1, 1) == hiD(b2, 1) && hiD(b1, 2) == hiD(b2, 2) && hiD(b1, 3) == hiD(b2, 3)
+//@   ensures b1.layout == b2.layout
+//@   ensures loD(b1, 0) == loD(b2, 0) && loD(b1, 1) == loD(b2, 1) && loD(b1, 2) == loD(b2, 2) && loD(b1, 3) == loD(b2, 3)
+//@   ensures hiD(b1, 0) == hiD(b2, 0) && hiD(b1, 1) == hiD(b2, 1) && hiD(b1, 2) == hiD(b2, 2) && hiD(b1, 3) == hiD(b2, 3)
+//@   modifies *b1, *b2, b1.min[0:cap(b1.min)], b1.max[0:cap(b1.max)], b2.min[0:cap(b2.min)], b2.max[0:cap(b2.max)]
